@@ -439,7 +439,7 @@ class Gen:
         if k == "plus":
             return ("plus", self.simple(), r.choice([0, 1, 1, 2, 5]), r.choice(["nk", "kn"]))
         if k == "mul":
-            return ("mul", self.simple(), r.choice([1, 2, 2, 3, 10]), r.choice(["ak", "ka"]))
+            return ("mul", self.simple(), r.choice([1, 2, 2, 3, 10, 0]), r.choice(["ak", "ka"]))
         if k == "neg":
             return ("neg", self.simple())
         if k == "div":
@@ -900,6 +900,8 @@ class Matcher:
                 raise Either()
             if not isinstance(v, int):
                 raise NoMatch()
+            if p[2] == 0:
+                raise NoMatch()          # a zero factor cannot be inverted: the pattern never matches
             if v % p[2] != 0:
                 raise Either()
             return self.m(p[1], v // p[2], T)
